@@ -396,11 +396,28 @@ fn gen_script(rng: &mut Rng, n: usize, len: usize, mode: &str) -> Vec<J> {
     let grps: [u64; 2] = [5, 6];
     let names = ["n1", "n2", "n3"];
     let rep = |rng: &mut Rng| NAMES[rng.below(n as u64) as usize];
+    if mode == "sessions" {
+        for e in ents.iter().take(3) {
+            v.push(json!({"op":"create","r":"A","e":e,"name":format!("p{e}"),"kind":"person"}));
+        }
+        v.push(json!({"op":"mesh"}));
+    }
     for _ in 0..len {
         let k = rng.below(100);
         let r = rep(rng);
         let e = *rng.pick(&ents);
         let op = match mode {
+            "sessions" => match k {
+                0..=34 => json!({"op":"addses","r":r,"e":rng.range(1,3),"sid":rng.range(1,4)}),
+                35..=59 => json!({"op":"revses","r":r,"e":rng.range(1,3),"sid":rng.range(1,4)}),
+                60..=64 => json!({"op":"setdn","r":r,"e":rng.range(1,3),"v":format!("d{}", rng.below(3))}),
+                _ => {
+                    let f = rep(rng);
+                    let mut to = rep(rng);
+                    while to == f { to = rep(rng); }
+                    json!({"op":"repl","from":f,"to":to})
+                }
+            },
             "lifecycle" => match k {
                 0..=11 => json!({"op":"create","r":r,"e":e,"name":format!("p{e}"),"kind":"person"}),
                 12..=21 => json!({"op":"setdn","r":r,"e":e,"v":format!("d{}", rng.below(3))}),
